@@ -332,6 +332,30 @@ func openD(cfg, corpus, work string) *bluge.Reader {
 }
 
 func termsOf(q *qnode, seen map[string]bool, out *[]string) {
+	if q.term && q.multi != 0 {
+		// a prefix / wildcard clause: every term its expansion searched (recorded by the plugin wrapper), in sorted order
+		recMu.Lock()
+		var ks []string
+		for _, r := range recSegs {
+			for k := range r.posts {
+				if strings.HasPrefix(k, q.field+"|") && !seen[k] {
+					w := k[len(q.field)+1:]
+					ok := strings.HasPrefix(w, q.word)
+					if q.multi == 'W' {
+						ok = globOK(q.word, w)
+					}
+					if ok {
+						seen[k] = true
+						ks = append(ks, k)
+					}
+				}
+			}
+		}
+		recMu.Unlock()
+		sort.Strings(ks)
+		*out = append(*out, ks...)
+		return
+	}
 	if q.term {
 		k := q.field + "|" + q.word
 		if !seen[k] {
@@ -345,6 +369,20 @@ func termsOf(q *qnode, seen map[string]bool, out *[]string) {
 			termsOf(c, seen, out)
 		}
 	}
+}
+
+// globOK: `*` any string, `?` any byte
+func globOK(pat, w string) bool {
+	if pat == "" {
+		return w == ""
+	}
+	switch pat[0] {
+	case '*':
+		return globOK(pat[1:], w) || (w != "" && globOK(pat, w[1:]))
+	case '?':
+		return w != "" && globOK(pat[1:], w[1:])
+	}
+	return w != "" && pat[0] == w[0] && globOK(pat[1:], w[1:])
 }
 
 func segsText(q *qnode) string {
